@@ -42,9 +42,9 @@ from .c20_api import API, dec, freeze, floats_in
 PROPERTY = "C20"
 LEVEL = "exploration"
 MANIFEST = {
-    "level_text": "Randomised search (Hypothesis) over the introspected public API: every public callable with registry-generated well-typed in-domain arguments (snapshot/compare of arguments and of all module-level tables, repeat-call equality across an interleaved call, finite results), one-at-a-time ill-typed substitutions, and generated call histories on object pools against a shadow model. Finds violations; the pair-interleaving space is sampled, not enumerated.",
-    "level_note": "The argument domains are read from the docstrings into vf/props/c20_api.py; Epoch.utc2local and local= are excluded (wall clock). Ill-typed rejection is asserted only where the docstring documents :raises:.",
-    "technique": "property-based testing (Hypothesis): API-wide generated calls with snapshot invariants + model-based call histories",
+    "level_text": "Randomised search (Hypothesis) over the introspected public API (321 registry entries, coverage of the inventory checked at start): every callable with registry-generated well-typed in-domain arguments under five oracles - argument/self snapshots through the public API, module-level tables, repeat after an interleaved call, the same call on objects re-used through set() (reuse relation), and the same call in a pristine process forked before any library call (order independence); result finiteness and shape; one-at-a-time ill-typed substitutions; documented out-of-range and wrong-arity arguments; and generated call histories on object pools against a shadow model with fresh-object comparison of every view after every step. Finds violations; the pair-interleaving space is sampled, not enumerated.",
+    "level_note": "The argument domains are read from the docstrings into vf/props/c20_api.py; Epoch.utc2local and local= are excluded (wall clock). Ill-typed rejection is asserted only where the docstring documents :raises:. Containers that are empty at import are treated as caches (judged by behaviour), not as tables.",
+    "technique": "property-based testing (Hypothesis): API-wide generated calls with snapshot, reuse and pristine-process (fork) oracles + model-based call histories",
 }
 RULE = ("call: callable drawn from the introspected API registry (every public function/method of "
         "every module; coverage of the inventory is checked at start), arguments from per-parameter "
